@@ -48,6 +48,7 @@ fn worker<C: SimpleCase>(gen: &(dyn Fn(&mut Rng, bool) -> C + Sync), cfg: &RunCf
   let mut shrunk: HashSet<String> = HashSet::new();
   for k in 0..(corpus.len() as u64 + n) {
     let case = if (k as usize) < corpus.len() { corpus[k as usize].clone() } else { gen(&mut rng, cfg.thorough) };
+    inflight(|| case.describe());
     let oi = case.run_impl();
     let om = d.ask(&case.reqs());
     r.cases += 1;
